@@ -83,6 +83,7 @@ structure Snap where
   isClient : Bool := true
   cert : Bool := false
   negotiated : Bool := false       -- stream negotiation completed
+  secured : Bool := false          -- a TLS session was established on this connection
   g : Ghost := {}                  -- offers / confirmations of the attempt so far
   deriving Repr, Inhabited
 
@@ -91,8 +92,12 @@ structure TxRec where
   item : Item
   owner : Owner
   sec : Bool                       -- written through an established TLS session
-  snap : Snap                      -- situation when it was queued
+  snap : Snap                      -- situation when it was (first) queued
   attemptW : Nat                   -- attempt during which it was written
+  mandatoryW : Bool := false       -- the user's flags when it was written
+  tlsDisabledW : Bool := false
+  legacyW : Bool := false
+  notifiedW : Bool := false        -- CONNECT / RAW_CONNECT had been delivered on the attempt when it was written
   deriving Repr, Inhabited
 
 structure QElem where
@@ -182,6 +187,11 @@ structure SmState where
   queue : List (UInt32 × QElem) := []
   deriving Repr, Inhabited
 
+/-- parser protocol state (ghost) -/
+inductive PSt
+  | fresh | opened | closed
+  deriving Repr, DecidableEq, Inhabited
+
 structure Conn where
   -- configuration
   jid : Option Bytes := none
@@ -219,6 +229,9 @@ structure Conn where
   streamError : Option (Nat × Option Bytes) := none
   queue : List QElem := []
   resetParser : Bool := false
+  /-- ghost: where the parser is in the protocol of `parserEvent` -/
+  pst : PSt := .closed
+  protoViol : Nat := 0
   openHandler : OpenH := .stub
   handlers : List Handler := []
   idHandlers : List Handler := []
@@ -328,7 +341,7 @@ def notify (c : Conn) (e : Ev) : Conn :=
 /-- `conn_disconnect` -/
 def connDisconnect (c : Conn) : Conn :=
   if c.state = .disconnected then c else
-  let c1 := { c with state := .disconnected, negotiated := false, hasTls := false }
+  let c1 := { c with state := .disconnected, negotiated := false, hasTls := false, isRaw := false }
   let c2 := resetSmForReconnect c1
   notify c2 (.disconnect c2.error (c2.streamError.map (·.1)) (c2.streamError.bind (·.2)))
 
@@ -336,10 +349,12 @@ def connDisconnect (c : Conn) : Conn :=
 
 /-- `_send_raw`: append; with SM enabled and no request outstanding, a non-SM element is followed
     by a linked `<r/>` -/
-def pushRaw (c : Conn) (it : Item) (owner0 : Owner) : Conn :=
+def curSnap (c : Conn) : Snap :=
+  { mandatory := c.tlsMandatory, tlsDisabled := c.tlsDisabled, authLegacy := c.authLegacy, isClient := c.ctype = .client, cert := c.cert, negotiated := c.negotiated, secured := c.secured, g := c.g }
+
+def pushRawWith (c : Conn) (it : Item) (owner0 : Owner) (snap : Snap) : Conn :=
   -- library elements queued before SM is enabled belong to the negotiation: never counted
   let owner := if owner0 = .strophe && !c.sm.enabled then Owner.smStrophe else owner0
-  let snap : Snap := { mandatory := c.tlsMandatory, tlsDisabled := c.tlsDisabled, authLegacy := c.authLegacy, isClient := c.ctype = .client, cert := c.cert, negotiated := c.negotiated, g := c.g }
   let c1 := { c with queue := c.queue ++ [{ item := it, owner := owner, uid := c.nextUid, snap := snap }], nextUid := c.nextUid + 1 }
   if !owner.smBit && c1.sm.enabled && !c1.sm.rSent then
     -- send_raw(req_ack): refused unless CONNECTED
@@ -349,6 +364,8 @@ def pushRaw (c : Conn) (it : Item) (owner0 : Owner) : Conn :=
         { c2 with queue := c2.queue ++ [{ item := .req, owner := .smStrophe, linked := true, uid := c2.nextUid, snap := snap }], nextUid := c2.nextUid + 1 }
     else c2
   else triggerSmCallback c1
+
+def pushRaw (c : Conn) (it : Item) (owner0 : Owner) : Conn := pushRawWith c it owner0 (curSnap c)
 
 /-- `_is_connected(conn, owner)` -/
 def isConnectedFor (c : Conn) (owner : Owner) : Bool :=
@@ -640,7 +657,7 @@ def compressionOffer (c : Conn) (st : XTree) : Conn :=
 /-- `_handle_features_compress` -/
 def handleFeaturesCompress (c : Conn) (st : XTree) : Conn :=
   let c := noteOffers c st
-  let c0 := delTimed c .missingFeatures
+  let c0 := delTimed c .missingFeaturesSasl
   let c1 := compressionOffer c0 st
   if c1.compSupported then
     let c2 := sendRaw c1 .compress .strophe
@@ -685,7 +702,8 @@ def smQueueCleanup (q : List (UInt32 × QElem)) (h : Nat) : List (UInt32 × QEle
 def smQueueResend (c : Conn) : Conn :=
   let q := c.sm.queue
   let c0 := { c with sm := { c.sm with queue := [] } }
-  q.foldl (fun c e => sendRaw c e.2.item e.2.owner) c0
+  -- (ghost: a retransmitted element keeps the snapshot of when it was first queued)
+  q.foldl (fun c e => if c.state = .connected then pushRawWith c e.2.item e.2.owner e.2.snap else c) c0
 
 /-- `_handle_sm` -/
 def handleSm (c : Conn) (st : XTree) : Conn :=
@@ -920,6 +938,7 @@ where
 
 /-- `_handle_stream_stanza` -/
 def handleStreamStanza (c : Conn) (st : XTree) : Conn :=
+  if c.state = .disconnected then c else
   let c1 := fireStanza c st
   if c1.sm.enabled then smHandleStanza c1 st else c1
 
@@ -950,18 +969,20 @@ def runOpenHandler (c : Conn) : Conn :=
     addTimed c1 .missingFeaturesSasl Gen.featuresTimeout false
   | .openCompress =>
     let c1 := addHandler c (.sys .featuresCompress) 0 (some Gen.nsStreams) (some (b "features")) none false
-    addTimed c1 .missingFeatures Gen.featuresTimeout false
+    addTimed c1 .missingFeaturesSasl Gen.featuresTimeout false
   | .componentOpen => componentOpen c
   | .stub => c
 
 /-- `_handle_stream_start` -/
 def handleStreamStart (c : Conn) (name : Bytes) (id : Option Bytes) : Conn :=
+  if c.state = .disconnected then c else
   let c1 := { c with streamId := none }
   if name = b "stream" then runOpenHandler { c1 with streamId := id }
   else connDisconnect c1
 
 /-- `_handle_stream_end` -/
 def handleStreamEnd (c : Conn) : Conn :=
+  if c.state = .disconnected then c else
   let c1 := triggerSmCallback { c with sm := { c.sm with canResume := false } }
   connDisconnect (delTimed c1 .disconnectCleanup)
 
@@ -974,17 +995,28 @@ inductive PEv
   | error
   deriving Repr, Inhabited
 
+/-- The parser (parser_expat.c over expat) delivers, between two resets: at most one stream open,
+    then stanzas, then at most one stream end; after an end or an error nothing but errors
+    (hypothesis H-parser-protocol, checked on every run: the driver reports an event outside it).
+    Events outside the protocol are counted in `protoViol` and otherwise ignored. -/
 def parserEvent (c : Conn) : PEv → Conn
-  | .open_ n id => handleStreamStart c n id
-  | .stanza t => handleStreamStanza c t
-  | .end_ => handleStreamEnd c
-  | .error => sendStanza c (.error (b "invalid-xml")) .strophe
+  | .open_ n id =>
+    if c.pst ≠ .fresh then { c with protoViol := c.protoViol + 1 }
+    else handleStreamStart { c with pst := .opened } n id
+  | .stanza t =>
+    if c.pst ≠ .opened then { c with protoViol := c.protoViol + 1 } else handleStreamStanza c t
+  | .end_ =>
+    if c.pst ≠ .opened then { c with protoViol := c.protoViol + 1 }
+    else handleStreamEnd { c with pst := .closed }
+  | .error => sendStanza { c with pst := .closed } (.error (b "invalid-xml")) .smStrophe
 
 /-! ### timed handlers (handler.c `handler_fire_timed`) -/
 
 def runTimed (c : Conn) (f : TFun) : Conn × Bool :=
   match f with
-  | .missingFeatures => (authTop c, false)
+  | .missingFeatures =>
+    -- xmpp_handler_delete(conn, _handle_features)
+    (authTop { c with handlers := c.handlers.filter (fun h => h.fn ≠ .sys .features) }, false)
   | .missingFeaturesSasl | .missingBind | .missingSession | .missingLegacy | .missingHandshake =>
     (xmppDisconnect c, false)
   | .disconnectCleanup => (connDisconnect c, false)
@@ -1013,7 +1045,7 @@ def fireTimed (c : Conn) : Conn :=
 
 /-- bookkeeping for one completely written element -/
 def retire (c : Conn) (e : QElem) : Conn :=
-  let c1 := { c with tx := c.tx ++ [{ item := e.item, owner := e.owner, sec := c.hasTls, snap := e.snap, attemptW := c.g.attempt }] }
+  let c1 := { c with tx := c.tx ++ [{ item := e.item, owner := e.owner, sec := c.hasTls, snap := e.snap, attemptW := c.g.attempt, mandatoryW := c.tlsMandatory, tlsDisabledW := c.tlsDisabled, legacyW := c.authLegacy, notifiedW := c.g.notifiedConnect }] }
   if !e.owner.smBit && c1.sm.enabled then
     triggerSmCallback { c1 with sm := { c1.sm with queue := c1.sm.queue ++ [(c1.sm.sentNr, e)], sentNr := c1.sm.sentNr + 1 } }
   else triggerSmCallback c1
@@ -1059,7 +1091,7 @@ def runOnce (c : Conn) (rx : Rx) : Conn :=
       if w.error ≠ 0 then connDisconnect { w with error := eConnAborted } else w
     else c
   -- reset parsers if needed
-  let c2 := { c1 with resetParser := false }
+  let c2 := { c1 with resetParser := false, pst := if c1.resetParser then .fresh else c1.pst }
   -- timed handlers
   let c3 := fireTimed c2
   -- what to wait for
@@ -1149,7 +1181,11 @@ def connectComponent (c : Conn) : Conn × Int :=
       connConnect c2 (c2.jid.getD []) .component
 
 /-- `xmpp_connect_raw` -/
-def connectRaw (c : Conn) : Conn × Int := connectClient { c with isRaw := true }
+def connectRaw (c : Conn) : Conn × Int :=
+  if c.state ≠ .disconnected then (c, xmppEInvOp)
+  else
+    let (c1, rc) := connectClient { c with isRaw := true }
+    if rc ≠ 0 then ({ c1 with isRaw := false }, rc) else (c1, rc)
 
 /-- `xmpp_send` -/
 def xmppSend (c : Conn) (it : Item) : Conn := sendStanza c it .user
